@@ -262,12 +262,28 @@ def sub_tokens(toks, pat, repl, tag, log, where, count=1):
     if not ptoks:
         raise ValueError("empty pattern")
     code = [(i, t) for i, t in enumerate(toks) if _is_code(t)]
+    pos_of = {ti: ci for ci, (ti, _t) in enumerate(code)}
+
+    def match_at(ci):
+        """code index after the match starting at ci, or None. The pattern token `__` directly after an opening bracket stands
+           for any balanced token sequence up to the matching closing bracket (the text of a closure, an argument list)."""
+        c = ci
+        for d, pt in enumerate(ptoks):
+            if pt.kind == "ident" and pt.text == "__" and d > 0 and ptoks[d - 1].kind == "punct" and ptoks[d - 1].text in "([{":
+                cl = match_close(toks, code[c - 1][0])
+                c = pos_of[cl]
+                continue
+            if c >= len(code) or code[c][1].text != pt.text:
+                return None
+            c += 1
+        return c
     out_ranges = []
     i = 0
-    while i + len(ptoks) <= len(code):
-        if all(code[i + d][1].text == ptoks[d].text for d in range(len(ptoks))):
-            out_ranges.append((code[i][0], code[i + len(ptoks) - 1][0]))
-            i += len(ptoks)
+    while i < len(code):
+        e = match_at(i)
+        if e is not None and e > i:
+            out_ranges.append((code[i][0], code[e - 1][0]))
+            i = e
         else:
             i += 1
     n = len(out_ranges)
@@ -361,6 +377,24 @@ def find_loops(body_toks):
                 j += 1
         k += 1
     return res
+
+
+def loop_header(body_toks, open_idx):
+    """code-token texts of the loop header that ends with the body brace at open_idx: from the while/for/loop keyword on"""
+    k = open_idx - 1
+    depth = 0
+    while k >= 0:
+        t = body_toks[k]
+        if t.kind == "punct" and t.text in ")]}":
+            depth += 1
+        elif t.kind == "punct" and t.text in "([{":
+            depth -= 1
+            if depth < 0:
+                break
+        elif depth == 0 and t.kind == "ident" and t.text in ("while", "for", "loop"):
+            return [x.text for x in body_toks[k:open_idx] if _is_code(x)]
+        k -= 1
+    return []
 
 
 def r13_index_loop(toks, k, log, where):
@@ -629,10 +663,10 @@ def make_helper(item, origin):
         elif "self" == txt.replace("&mut ", "").strip():
             self_kind = "mut"
         else:
-            m = re.match(r"(?:mut )?(\w+)\s*:\s*(.*)$", txt)
+            m = re.match(r"(mut )?(\w+)\s*:\s*(.*)$", txt)
             if not m:
                 raise Unsupported("helper %s: parameter %r" % (item.name, txt))
-            params.append((m.group(1), m.group(2)))
+            params.append((("mut " if m.group(1) else "") + m.group(2), m.group(3)))
     # body
     b = cl
     while not (toks[b].kind == "punct" and toks[b].text == "{"):
